@@ -43,8 +43,12 @@ def gen_demux_case(ctx):
         argv.append("--discard-untrimmed")
     elif x < 0.5 and not comb:
         argv += ["--untrimmed-output", "{dir}/ut1.fastq"]
-        if paired:
+        # paired data read from one interleaved file may name a single untrimmed file (it then receives both mates)
+        lone_ut = paired and rng.random() < 0.3
+        if paired and not lone_ut:
             argv += ["--untrimmed-paired-output", "{dir}/ut2.fastq"]
+        if lone_ut:
+            argv = ["--interleaved"] + argv
     if rng.random() < 0.3:
         argv += ["-m", str(rng.randint(5, 15))]
     rc = comb and rng.random() < 0.4
@@ -81,7 +85,7 @@ def gen_demux_case(ctx):
         sw = [rng.random() < 0.5 for _ in r1]
         r1, r2 = ([(a[0], b[1], b[2]) if w else a for a, b, w in zip(r1, r2, sw)],
                   [(b[0], a[1], a[2]) if w else b for a, b, w in zip(r1, r2, sw)])
-    case = dict(argv=argv, paired=paired, reads1=r1, reads2=r2, with_qual=True, interleaved_in=False, demux_case=True,
+    case = dict(argv=argv, paired=paired, reads1=r1, reads2=r2, with_qual=True, interleaved_in="--interleaved" in argv, demux_case=True,
                 names=names, names2=names2, comb=comb, ext=ext)
     if mc:
         case["cores"] = rng.choice([2, 3])
@@ -141,8 +145,11 @@ def oracle(ctx, case, res, real):
         if not discard:
             if ut:
                 exp_files.add("ut1." + ext)
-                if case["paired"]:
+                if case["paired"] and "--untrimmed-paired-output" in argv:
                     exp_files.add("ut2." + ext)
+                elif case["paired"]:
+                    # only --untrimmed-output given (interleaved input): it is R1's untrimmed file; R2 of such pairs goes to its 'unknown' file
+                    exp_files.add("dm-unknown.2." + ext)
             else:
                 exp_files.add("dm-unknown.1." + ext)
                 if case["paired"]:
@@ -192,7 +199,8 @@ def oracle(ctx, case, res, real):
             else:
                 sides = ("1", "2") if case["paired"] else ("1",)
                 if an == "no_adapter":
-                    exp = [] if discard else [f"ut{x}.{ext}" for x in sides] if ut else [f"dm-unknown.{x}.{ext}" for x in sides]
+                    lone = ut and case["paired"] and "--untrimmed-paired-output" not in argv
+                    exp = [] if discard else [f"ut1.{ext}", f"dm-unknown.2.{ext}"] if lone else [f"ut{x}.{ext}" for x in sides] if ut else [f"dm-unknown.{x}.{ext}" for x in sides]
                 else:
                     exp = [f"dm-{an}.{x}.{ext}" for x in sides]
             if sorted(where.get(k, [])) != sorted(exp):
